@@ -152,10 +152,12 @@ theorem C06_moto_file (t ll a e : Nat) (data : List Byte) (ht : t ≤ 2) (hll : 
   simp only [bind, Option.bind, pure, srecRun, Bool.false_eq_true, if_false, h4, addCells]
   simp
 
-/-- the same statement about the model's `emitGroups` + `terminators` (what `p2hex` returns for one selected record) -/
+/-- the same statement about the model's `emitGroups` + `terminators` (what `p2hex` returns for one selected record), for EVERY
+line length `-l` since the repair 55ce03a (the data bytes per record are cut to what the count byte can express; before it the
+theorem needed `lineLen + 3 + type ≤ 255`, and longer lines printed a truncated count - finding `moto-count-byte-overflow-linelen-over-252`) -/
 theorem C06_moto (o : Opts) (g : Group) (e : Option Nat) (hf : g.fmt = .moto) (hg : g.gran = 1) (hmm : o.multiMode = 0)
     (h5 : o.rec5 = false) (hs : o.sepMoto = false) (hc : o.destFormat = some .moto) (hm : o.minMoto ≤ 3)
-    (hl : o.lineLen + 3 + motoRecType o.minMoto g.ergStop ≤ 255) (hll : 1 ≤ o.lineLen)
+    (hll : 1 ≤ o.lineLen)
     (ha : g.ergStart + g.data.length ≤ 65536 * 256 ^ motoRecType o.minMoto g.ergStop)
     (h32 : g.ergStart + g.data.length < 4294967296) (he : e.getD 0 < 65536 * 256 ^ motoRecType o.minMoto g.ergStop) :
     ∃ st ls, emitGroups o {} [g] = .ok (st, ls) ∧
@@ -175,12 +177,21 @@ theorem C06_moto (o : Opts) (g : Group) (e : Option Nat) (hf : g.fmt = .moto) (h
         · rw [if_neg h2]; omega
     exact aux _ t0le
   obtain ⟨fmt, seg, gran, ergStart, ergStop, data⟩ := g
-  simp only at hf hg ha h32 he hl ht
+  simp only at hf hg ha h32 he ht
   subst hf hg
+  -- the line length ProcessFile really uses: cut to what the count byte can express (repair 55ce03a)
+  let ll := if 255 < o.lineLen + 3 + motoRecType o.minMoto ergStop then 252 - motoRecType o.minMoto ergStop else o.lineLen
+  have hll' : 1 ≤ ll := by
+    show 1 ≤ (if 255 < o.lineLen + 3 + motoRecType o.minMoto ergStop then 252 - motoRecType o.minMoto ergStop else o.lineLen)
+    split <;> omega
+  have hl : ll + 3 + motoRecType o.minMoto ergStop ≤ 255 := by
+    show (if 255 < o.lineLen + 3 + motoRecType o.minMoto ergStop then 252 - motoRecType o.minMoto ergStop else o.lineLen) + 3 +
+      motoRecType o.minMoto ergStop ≤ 255
+    split <;> omega
   refine ⟨{ ({} : St) with motoOcc := true, maxMoto := max 0 (motoRecType o.minMoto ergStop) },
-    s0Line :: motoLoop 0 1 (motoRecType o.minMoto ergStop) o.lineLen data.length ergStart data, ?_, ?_⟩
-  · simp [emitGroups, emitGroup, hs, h5, hmm, bind, Except.bind, pure, Except.pure]
-  · have := C06_moto_file _ o.lineLen ergStart (e.getD 0) data ht hll hl ha h32 he
+    s0Line :: motoLoop 0 1 (motoRecType o.minMoto ergStop) ll data.length ergStart data, ?_, ?_⟩
+  · simp [emitGroups, emitGroup, hs, h5, hmm, bind, Except.bind, pure, Except.pure, ll, Nat.mod_one]
+  · have := C06_moto_file _ ll ergStart (e.getD 0) data ht hll' hl ha h32 he
     simp only [terminators, hs, hc, Bool.not_false, Bool.and_true, if_true,
       Bool.false_eq_true, if_false, List.append_nil, List.nil_append, Nat.zero_max, reduceCtorEq, List.cons_append]
     simpa using this
@@ -191,7 +202,7 @@ example : ∃ st ls, emitGroups { destFormat := some .moto, rec5 := false } {} [
     decodeSrecLines (ls ++ terminators { destFormat := some .moto, rec5 := false } st (some 0x1234)) =
       some ⟨cellsFrom 0xfff0 [1, 2, 3], [0x1234], 0⟩ :=
   C06_moto { destFormat := some .moto, rec5 := false } ⟨.moto, 1, 1, 0xfff0, 0xfff2, [1, 2, 3]⟩ (some 0x1234) rfl rfl rfl rfl rfl rfl
-    (by decide) (by decide) (by decide) (by decide) (by decide) (by decide)
+    (by decide) (by decide) (by decide) (by decide) (by decide)
 
 /-! ## Intel HEX -/
 
